@@ -284,7 +284,7 @@ def check_case(case, res=None):
 
 
 def plan(tier):
-    return [{"n": 110, "depth": 3}] * 16 if tier == "quick" else [{"n": 3000, "depth": 3}] * 32 + [{"n": 1000, "depth": 5}] * 16
+    return [{"n": 110, "depth": 3}] * 16 if tier == "quick" else [{"n": 2000, "depth": 3}] * 32 + [{"n": 600, "depth": 5}] * 16
 
 
 def run_shard(spec, seed, res, only_bucket=None):
